@@ -178,12 +178,25 @@ var (
 	chunkWatchdog    = 25 * time.Minute
 )
 
+// exploreDeadline: end of the exploration phase of the current check (zero outside it).
+// spinSecs: real seconds without quiescence after which the simulator's own watchdog reports
+// a CPU-bound go-upf goroutine (see sim/verifsim/main_test.go).
+var (
+	exploreDeadline time.Time
+	spinSecs        = 40
+)
+
 func runChunk(bin, profile string, ck chunk, gomaxprocs int, extra ...string) workerOut {
 	var wo workerOut
 	first, count := ck.first, ck.count
 	for count > 0 {
+		if len(wo.crashes) > 0 && !exploreDeadline.IsZero() && time.Now().After(exploreDeadline) {
+			// a crashing (or spinning: 40-150 s of real time each) tree must not keep the
+			// exploration going long after its time is up: the rest of the chunk is dropped
+			break
+		}
 		args := []string{"-test.run", "^TestSim$", "-test.timeout", chunkTestTimeout,
-			"-sim.profile", profile, "-sim.seed", fmt.Sprint(first), "-sim.count", fmt.Sprint(count)}
+			"-sim.profile", profile, "-sim.seed", fmt.Sprint(first), "-sim.count", fmt.Sprint(count), "-sim.spinsecs", fmt.Sprint(spinSecs)}
 		args = append(args, extra...)
 		cmd := exec.Command(bin, args...)
 		cmd.Env = append(env(), fmt.Sprintf("GOMAXPROCS=%d", gomaxprocs), "GODEBUG=asynctimerchan=0", "GORACE=halt_on_error=1")
@@ -346,7 +359,7 @@ func crashSignature(out string) string {
 
 // replayOnce runs a replay file in a fresh process and returns the violation it produced.
 func replayOnce(bin string, file string, gomaxprocs int) (*Violation, string, error) {
-	cmd := exec.Command(bin, "-test.run", "^TestSim$", "-test.timeout", "10m", "-sim.replay", file)
+	cmd := exec.Command(bin, "-test.run", "^TestSim$", "-test.timeout", "10m", "-sim.replay", file, "-sim.spinsecs", fmt.Sprint(spinSecs))
 	cmd.Env = append(env(), fmt.Sprintf("GOMAXPROCS=%d", gomaxprocs), "GODEBUG=asynctimerchan=0", "GORACE=halt_on_error=1")
 	var stdout, stderr bytes.Buffer
 	cmd.Stdout = &stdout
@@ -693,6 +706,12 @@ func cmdRun(args []string) int {
 	a := &agg{fired: map[string]int{}, probes: map[string]int{}, nontriv: map[string]bool{}, distinct: map[string]bool{},
 		states: map[string]bool{}, viol: map[string][]*RunResult{}, knownSeen: map[string]int{}}
 	deadline := start.Add(time.Duration(spec.secs) * time.Second)
+	exploreDeadline = deadline
+	if race {
+		spinSecs = 150
+	} else if tier == "thorough" {
+		spinSecs = 90
+	}
 	var next uint64
 	var nmu sync.Mutex
 	base := master * 100000000
@@ -771,6 +790,7 @@ func cmdRun(args []string) int {
 	}
 	wg.Wait()
 	<-detDone
+	exploreDeadline = time.Time{}
 	if len(a.harness) > 0 {
 		fail2("harness errors (not a verdict), first: %s", a.harness[0])
 	}
